@@ -180,7 +180,8 @@ type Scheduler struct {
 	// Timeout bounds one Quiesce call (default 20s).
 	Timeout time.Duration
 
-	dumps int64
+	dumps   int64
+	dumpBuf []byte
 }
 
 func NewScheduler(store *Store) *Scheduler {
@@ -460,11 +461,26 @@ func allStacks() string {
 	return string(buf[:n])
 }
 
+// dump returns a goroutine dump in a buffer owned by the scheduler (only the goroutine that
+// calls Quiesce uses it).
+func (sc *Scheduler) dump() []byte {
+	if sc.dumpBuf == nil {
+		sc.dumpBuf = make([]byte, 64<<10)
+	}
+	for {
+		n := runtime.Stack(sc.dumpBuf, true)
+		if n < len(sc.dumpBuf) {
+			return sc.dumpBuf[:n]
+		}
+		sc.dumpBuf = make([]byte, 2*len(sc.dumpBuf))
+	}
+}
+
 // allBlocked takes a goroutine dump and reports whether every goroutine that belongs to an
 // operation (the operations' main goroutines and, transitively, goroutines created by them)
 // is blocked.
 func (sc *Scheduler) allBlocked() bool {
-	dump := allStacks()
+	dump := string(sc.dump())
 	type g struct {
 		id, parent int64
 		running    bool
